@@ -200,36 +200,7 @@ func runC16(c *Ctx) {
 	}
 	// S8: the stop API blocks until completion (Break on the own breaker, synchronously)
 	r.Doc("S8", "Stop()/GracefulStop() call Break() of the matching breaker synchronously (they return only after the goroutine completed)", 5)
-	for _, d := range p.Discs() {
-		for _, m := range d.API {
-			if m.Name() != "Stop" && m.Name() != "GracefulStop" {
-				continue
-			}
-			want := map[string]string{"Stop": "breaker", "GracefulStop": "graceful"}[m.Name()]
-			ok := false
-			var bad []string
-			for _, b := range m.Blocks {
-				for _, in := range b.Instrs {
-					switch x := in.(type) {
-					case *ssa.Go:
-						bad = append(bad, "starts a goroutine: the method returns before the discipline has stopped")
-					case *ssa.Defer:
-						_ = x
-					case *ssa.Call:
-						if cal := p.Callee(x); cal != nil && strings.HasSuffix(p.funcDisplay(cal), "breaker.Breaker).Break") {
-							if _, path, okp := p.Sym(x.Call.Args[0]).FieldPath(); okp && path[len(path)-1] == want && b.Index == 0 {
-								ok = true
-							}
-						}
-					}
-				}
-			}
-			if !ok {
-				bad = append(bad, "does not call Break() on the "+want+" breaker unconditionally")
-			}
-			r.Check(len(bad) == 0, "S8", p.FnKey(m), p.Pos(m.Pos()), "synchronous Break() on "+want, strings.Join(bad, "; "))
-		}
-	}
+	checkStopSync(c, p, "S8")
 	if entries < 4 {
 		r.Fail("S0", "v1:entries", "-", fmt.Sprintf("UNRESOLVED-ANCHOR: %d v1 goroutine entries found, expected 4", entries))
 	}
@@ -691,4 +662,39 @@ func handleCtxProblem(p *Prog, rt *Routine, in ssa.Instruction) string {
 		}
 	}
 	return ""
+}
+
+// checkStopSync (S8 = C19/G8): the stop API blocks until completion (Break on the own breaker,
+// synchronously and unconditionally).
+func checkStopSync(c *Ctx, p *Prog, rule string) {
+	for _, d := range p.Discs() {
+		for _, m := range d.API {
+			if m.Name() != "Stop" && m.Name() != "GracefulStop" {
+				continue
+			}
+			want := map[string]string{"Stop": "breaker", "GracefulStop": "graceful"}[m.Name()]
+			ok := false
+			var bad []string
+			for _, b := range m.Blocks {
+				for _, in := range b.Instrs {
+					switch x := in.(type) {
+					case *ssa.Go:
+						bad = append(bad, "starts a goroutine: the method returns before the discipline has stopped")
+					case *ssa.Defer:
+						_ = x
+					case *ssa.Call:
+						if cal := p.Callee(x); cal != nil && strings.HasSuffix(p.funcDisplay(cal), "breaker.Breaker).Break") {
+							if _, path, okp := p.Sym(x.Call.Args[0]).FieldPath(); okp && path[len(path)-1] == want && b.Index == 0 {
+								ok = true
+							}
+						}
+					}
+				}
+			}
+			if !ok {
+				bad = append(bad, "does not call Break() on the "+want+" breaker unconditionally")
+			}
+			c.R.Check(len(bad) == 0, rule, p.FnKey(m), p.Pos(m.Pos()), "synchronous Break() on "+want, strings.Join(bad, "; "))
+		}
+	}
 }
